@@ -177,14 +177,15 @@ func (g *gGen) upload(d *draws, bucket, name string, conds gConds) gOp {
 }
 
 type gSeqSpec struct {
-	Store     string
-	NOps      int
-	Gen       func(d *draws, m *gModel, i int) gOp
-	FullEvery int
-	Restarts  bool
-	After     func(op gOp, resp gResp, m *gModel, w *GCSWorld) bool
-	Witness   func(op gOp, kind string) string
-	PreCheck  func(op gOp, w *GCSWorld, m *gModel) bool // optional extra checks around an op
+	Store        string
+	NOps         int
+	Gen          func(d *draws, m *gModel, i int) gOp
+	FullEvery    int
+	Restarts     bool
+	After        func(op gOp, resp gResp, m *gModel, w *GCSWorld) bool
+	Witness      func(op gOp, kind string) string
+	Records      [][]int // pre-drawn records (differential runs share them)
+	RestartEvery bool    // restart the file store after every request
 }
 
 type gSeqResult struct {
@@ -248,7 +249,12 @@ func runGSeq(r *Run, spec gSeqSpec, clk *Clock) *gSeqResult {
 	}
 	r.Mix(spec.Store)
 	for i := 0; i < spec.NOps && !r.Failed(); i++ {
-		d := record(ps, 96)
+		var d *draws
+		if spec.Records != nil {
+			d = &draws{v: spec.Records[i]}
+		} else {
+			d = record(ps, 96)
+		}
 		op := spec.Gen(d, m, i)
 		res.Shapes = append(res.Shapes, gOpShape(op))
 		failedBefore := false
@@ -262,7 +268,7 @@ func runGSeq(r *Run, spec gSeqSpec, clk *Clock) *gSeqResult {
 				break
 			}
 		}
-		if spec.Restarts && spec.Store == "file" && r.T.S("fault").Intn(5) == 4 {
+		if spec.Store == "file" && (spec.RestartEvery || (spec.Restarts && r.T.S("fault").Intn(5) == 4)) {
 			r.Fault("restart_boundary")
 			r.Probe("gcs.restart")
 			res.World = res.World.Restart()
